@@ -329,7 +329,7 @@ impl Ctx {
             self.out.skip();
             return;
         }
-        let human = format!("int[{}] {}", pos, query);
+        let human = format!("int[{}] {:?}", pos, query);
         let (obs, bad): (Result<Option<String>, bool>, Option<String>) = match run(query) {
             Res::Panic(p) => (Err(true), Some(format!("panic: {}", p))),
             Res::Err => {
@@ -365,7 +365,7 @@ impl Ctx {
             self.out.skip();
             return;
         }
-        let human = format!("count[{}] {}", pos, query);
+        let human = format!("count[{}] {:?}", pos, query);
         let (obs, bad) = match run(query) {
             Res::Panic(p) => ("Panic".to_string(), Some(format!("panic: {}", p))),
             Res::Err => {
@@ -427,7 +427,7 @@ impl Ctx {
             self.out.skip();
             return;
         }
-        let human = format!("len[{}] {}", kind, query);
+        let human = format!("len[{}] {:?}", kind, query);
         let want = |tok: &str, got: Option<usize>| -> bool { got.map_or(false, |g| same_number(tok, g as i128)) };
         let (obs, bad) = match run(&query) {
             Res::Panic(p) => ("Panic".to_string(), Some(format!("panic: {}", p))),
@@ -466,7 +466,7 @@ impl Ctx {
             self.out.skip();
             return;
         }
-        let human = format!("float[{}] {}", pos, query);
+        let human = format!("float[{}] {:?}", pos, query);
         let (acc, pan, bad) = match run(query) {
             Res::Panic(p) => (false, true, Some(format!("panic: {}", p))),
             Res::Err => {
